@@ -377,6 +377,15 @@ Definition val_same (a b : val) : bool :=
   | VNum x, VNum y => Z.eqb (Qnum x) (Qnum y) && Pos.eqb (Qden x) (Qden y)
   | _, _ => val_eqb a b
   end.
+(* decidable check on the pair table of an enumerated rule: closed and associative over the values `dom`
+   (the pair function is always commutative) — then the engine's left fold does not depend on the order *)
+Definition closed_on (dom : list val) (f : val -> val -> val) : bool :=
+  forallb (fun a => forallb (fun b => existsb (val_same (f a b)) dom) dom) dom.
+Definition assoc_on (dom : list val) (f : val -> val -> val) : bool :=
+  forallb (fun a => forallb (fun b => forallb (fun c => val_same (f (f a b) c) (f a (f b c))) dom) dom) dom.
+Definition enum_order_safe (dom : list val) (cls : list vclause) (d : val) : bool :=
+  closed_on dom (enum_pair cls d) && assoc_on dom (enum_pair cls d).
+
 Definition cl_key (c : vclause) : list val :=
   match c with VC2 a b _ => if val_same a b then [a] else [a; b] | VC1 a _ => [a] end.
 Definition key_sub (a b : list val) : bool := forallb (fun x => existsb (val_same x) b) a.
